@@ -34,6 +34,8 @@ def configs(tier):
     for s in [(1, 1), (2, 1), (1, 1, 1), (0, 2), (2, 2), (2, 1, 0)]:
         for w in (1, 2):
             out.append(dict(key=f"sizes={s},window={w}", sizes=list(s), w=w, cost=10 ** sum(s), split=(24 if sum(s) >= 3 else None)))
+    # three annotators and more units than one window takes (w * n < units): the tail of the run sees a single annotator with units left
+    out.append(dict(key="sizes=(2, 1, 1),window=1", sizes=[2, 1, 1], w=1, cost=10 ** 4, split=32))
     out.append(dict(key="job-dispatch", kind="dispatch", cost=1))
     out.append(dict(key="sizes=(1, 1),window=1,after-earlier-fast-alignment-and-remove", sizes=[1, 1], w=1, warm=True, cost=3000, split=24))
     if tier == "thorough":
